@@ -79,6 +79,36 @@ CHECKS = {
         "note": "Trusted: Coq kernel+VM; SHA-1/HMAC modelled incl. the streaming-update = concatenation behaviour of the hmac crate. No axioms.",
         "technique": "Coq proof (algebra of list concatenation; collision-form binding) + model/implementation correspondence via vm_compute",
     },
+    "C09": {
+        "text": "Theorems (Coq, all keys / streams / partitions): Rc4::new and apply_keystream never index out of range (checked accesses, invariant length 256, i, j < 256); for every non-empty key the model is textbook RC4 at every offset (counters wrap mod 256, no special case at 256 or 65,536 bytes); any partition into calls equals one call and the state depends only on the byte count; each of the four halves outputs data xor bytes 1024.. of RC4 keyed by HMAC-SHA1(direction constant, K); client encrypter / server decrypter (and server encrypter / client decrypter) start in the same state, the two constants differ, each direction round-trips under independent chunkings; constructors and raw calls never panic. Tied to the code by the correspondence (raw Rc4 through a hook incl. RFC 6229 keys, the four halves over random partitions, lengths around 256/1024 and beyond 65,536 in thorough) and an independent RC4+HMAC reference in the harness.",
+        "design_ref": "DESIGN.md §3 C09",
+        "note": "Trusted: Coq kernel+VM, the model of rc4.rs / wrath_header, the Gallina SHA-1/HMAC, harness and hooks. 'Never share a keystream' is proved as 'different HMAC key constants'. No axioms.",
+        "technique": "Coq proof (RC4 invariant, induction over the stream, lock-step of paired halves) + model/implementation correspondence via vm_compute",
+    },
+    "C10": {
+        "text": "Theorems (Coq, every size <= 0x7FFFFF, opcode < 2^16, every state satisfying the RC4 invariant): emitted bytes xor keystream are the documented layout, 4 bytes iff size <= 0x7FFF else 5 with 0x80 in the first plaintext byte; with the decrypter in step the attempt returns a short header directly and asks for one more byte for a long one, after which decrypt_large returns exactly (size, opcode) with the states equal again; ANY finite sequence of in-range headers, short and long mixed, decodes to the same sequence consuming exactly the emitted bytes; no header entry point panics incl. decrypt_large without attempt; oversize sizes wrap mod 2^23. Tied to the code by the correspondence and an implementation-side sweep of every size (thorough: all 2^23) through both client paths.",
+        "design_ref": "DESIGN.md §3 C10",
+        "note": "Trusted: as C09. No axioms.",
+        "technique": "Coq proof (byte arithmetic of the layout, induction over the header sequence with the lock-step invariant) + model/implementation correspondence via vm_compute + exhaustive implementation-side size sweep",
+    },
+    "C16": {
+        "text": "Theorems (Coq, every PIN, seed, salts): the keypad layout is a permutation of 0..9 for EVERY seed (invariant, no enumeration), depends only on seed mod 10! and equals the factorial-base decoding; pin_to_bytes is the decimal expansion and never writes outside its array; the position lookup and += 0x30 never panic; calculate_hash = None iff pin < 1000 else SHA1(client salt | SHA1(server salt | ASCII positions)); verify = true iff a hash exists and equals the presented one; every single-bit flip of an accepted hash is refused; the crate's test vectors evaluate on the model. Tied to the code by the correspondence and an implementation-side sweep of all 3,628,800 residues (thorough).",
+        "design_ref": "DESIGN.md §3 C16",
+        "note": "Trusted: Coq kernel+VM, the model of pin.rs, SHA-1 as executable Gallina, harness and the remap_pin_grid hook. No axioms.",
+        "technique": "Coq proof (permutation invariant, mixed-radix arithmetic) + model/implementation correspondence via vm_compute",
+    },
+    "C18": {
+        "text": "Theorems (Coq, all cards with 1 <= w*h <= 255, d >= 1): get_number_at_coordinates(x, y) is printed cell y*w+x; the printer yields w*h disjoint cells of d digits in row-major order; the challenged coordinates are a selection without replacement (distinct, on the card, no u8 overflow); rounds outside 0..count-1 give None and nothing panics for rounds 0..255; the proof of entered digits is HMAC-SHA1(MD5(seed LE | K), RC4(digits)) for any partition into calls; verify_matrix_card_hash never panics and accepts exactly the proof of the digits printed at the challenged cells; the honest client is accepted; any other digit sequence is rejected or exhibits an HMAC collision; the two pinned defects (start = x*y, round > count) are refuted on the legacy model. Tied to the code by the correspondence (lookup, all 256 rounds, client proof, server verify) and an oracle over every geometry.",
+        "design_ref": "DESIGN.md §3 C18, §4 F3 F4 F5",
+        "note": "Decided on the repaired functions (fix: 3395191, c8e10d4). digit_count = 0 (to_printer panics) is known finding F5 (known_findings.json), outside the guard. Trusted: Coq kernel+VM, models of matrix_card.rs / rc4.rs, SHA-1/HMAC/MD5 as Gallina, harness. No axioms.",
+        "technique": "Coq proof (list surgery, selection without replacement, RC4 refinement, xor cancellation) + model/implementation correspondence via vm_compute",
+    },
+    "C19": {
+        "text": "Theorems (Coq, all inputs, no side condition): the model of the srp-fast-math bodies of bigint.rs and the model of the num-bigint bodies give equal results for modpow (every exponent >= 0 and modulus >= 0, negative bases included; both panic on modulus 0), for every padded copy (the [0] vs [] encoding of zero vanishes), and hence for every function of the authentication API model (verifier, B, S, client A and S under any group, registration, into_proof, into_server, client constructor, both public-key conversions); each equals b^e mod m. The pinned GMP body is refuted (zero exponent, even modulus). Tied to the code by building the harness against BOTH real back ends (GMP via a vendored gmp-mpfr-sys build script using the system library), comparing them pairwise on seed-determined inputs and each with its own model.",
+        "design_ref": "DESIGN.md §3 C19, §4 F6",
+        "note": "Decided on the repaired GMP body (fix: afd25dc). Trusted: Coq kernel+VM; models of both primitive sets; system GMP 6.2.1 instead of 6.3.0 via the relaxed version gate in the vendored build script. No axioms.",
+        "technique": "Coq proof (both back ends refine b^e mod m; zero-encoding difference absorbed by padding) + four-way correspondence (two real builds, two models)",
+    },
 }
 
 DONE = set(CHECKS)
